@@ -4,6 +4,7 @@ package main
 
 import (
 	"fmt"
+	"go/token"
 	"sort"
 
 	"golang.org/x/tools/go/ssa"
@@ -323,4 +324,191 @@ func r15_7(c *Ctx, r *Report) {
 	}
 	sort.Strings(ps)
 	r.check(len(ps) == 0 && n == 12*81, rule, "calendar.(*SolarMonth).Next lands on month 12*year + month - 1 + n", c.fnPos(fn), fmt.Sprintf("%d cases (start month x n); deviations: %v", n, headList(ps, 3)))
+}
+
+func r15_8(c *Ctx, r *Report) {
+	const rule = "R15.8"
+	r.rule(rule, "The weeks of a month are the weeks that meet it. SolarMonth.GetWeeks (a) lists the week that contains the 1st unconditionally — the evaluator reaches its PushBack from the entry without needing anything about that week's first day, which may lie in the previous month or year — and (b) after each step of one week continues exactly when the new week's first day is still in the month: followed for a mid-year month, January and December with the next week starting in the same month, the next month, or January of the next year.")
+	fn := c.Fn(r, rule, "calendar.(*SolarMonth).GetWeeks")
+	if fn == nil {
+		return
+	}
+	hasPush := func(b *ssa.BasicBlock) bool {
+		for _, ins := range b.Instrs {
+			if call, ok := ins.(*ssa.Call); ok && call.Common().StaticCallee() != nil && call.Common().StaticCallee().String() == "(*container/list.List).PushBack" {
+				return true
+			}
+		}
+		return false
+	}
+	var step *ssa.Call
+	for _, b := range fn.Blocks {
+		for _, ins := range b.Instrs {
+			if call, ok := ins.(*ssa.Call); ok && call.Common().StaticCallee() != nil && fname(call.Common().StaticCallee()) == "calendar.(*SolarWeek).Next" {
+				step = call
+			}
+		}
+	}
+	constructA := "calendar.(*SolarMonth).GetWeeks lists the week of the 1st unconditionally"
+	constructB := "calendar.(*SolarMonth).GetWeeks continues while the stepped week starts inside the month"
+	if step == nil {
+		r.bad(rule, constructB, c.fnPos(fn), "no step week.Next(1, false) found (undecided = fail)")
+		return
+	}
+	objLeaf := func(fr *evalFrame, v ssa.Value) (interface{}, bool) {
+		if call, ok := v.(*ssa.Call); ok && call.Common().StaticCallee() != nil {
+			switch fname(call.Common().StaticCallee()) {
+			case "calendar.NewSolarWeekFromYmd":
+				return absPtr{"week of the 1st", false}, true
+			case "calendar.(*SolarWeek).Next":
+				return absPtr{"stepped week", false}, true
+			}
+			if call.Common().StaticCallee().String() == "container/list.New" {
+				return absPtr{"list", false}, true
+			}
+		}
+		return nil, false
+	}
+	// (a) no branch that can be taken before the first push looks at a week
+	var firstPush *ssa.BasicBlock
+	for _, b := range fn.Blocks {
+		if hasPush(b) && (firstPush == nil || b.Dominates(firstPush)) {
+			firstPush = b
+		}
+	}
+	var weekDependent func(v ssa.Value, depth int, seen map[ssa.Value]bool) bool
+	weekDependent = func(v ssa.Value, depth int, seen map[ssa.Value]bool) bool {
+		if v == nil || depth > 10 || seen[v] {
+			return false
+		}
+		seen[v] = true
+		if structName(v.Type()) == "SolarWeek" {
+			return true
+		}
+		if ins, ok := v.(ssa.Instruction); ok {
+			for _, op := range ins.Operands(nil) {
+				if *op != nil && weekDependent(*op, depth+1, seen) {
+					return true
+				}
+			}
+		}
+		return false
+	}
+	var early []string
+	if firstPush != nil {
+		// blocks from which the first push is reachable without having passed it
+		reach := map[*ssa.BasicBlock]bool{firstPush: true}
+		for changed := true; changed; {
+			changed = false
+			for _, b := range fn.Blocks {
+				if reach[b] || b == firstPush {
+					continue
+				}
+				for _, sc := range b.Succs {
+					if reach[sc] && !firstPush.Dominates(b) {
+						reach[b] = true
+						changed = true
+					}
+				}
+			}
+		}
+		for b := range reach {
+			if b == firstPush {
+				continue
+			}
+			if iff, ok := b.Instrs[len(b.Instrs)-1].(*ssa.If); ok && weekDependent(iff.Cond, 0, map[ssa.Value]bool{}) {
+				early = append(early, c.pos(iff.Cond.Pos()))
+			}
+		}
+	}
+	sort.Strings(early)
+	r.check(firstPush != nil && len(early) == 0, rule, constructA, c.fnPos(fn), fmt.Sprintf("branch conditions on a week that can be evaluated before the first week is pushed: %v (a month test on the week of the 1st fails for a January whose 1st is not the first weekday: that week starts in December)", early))
+	// (b) a listing of as many weeks as GetWeeksOfMonth reports is decided with R15.6
+	for _, b := range fn.Blocks {
+		iff, ok := b.Instrs[len(b.Instrs)-1].(*ssa.If)
+		if !ok {
+			continue
+		}
+		bo, ok := iff.Cond.(*ssa.BinOp)
+		if !ok || bo.Op != token.LSS {
+			continue
+		}
+		cnt, isPhi := bo.X.(*ssa.Phi)
+		call, isCall := bo.Y.(*ssa.Call)
+		if !isPhi || !isCall || call.Common().StaticCallee() == nil || fname(call.Common().StaticCallee()) != "SolarUtil.GetWeeksOfMonth" {
+			continue
+		}
+		init0, step1 := false, false
+		for _, e := range cnt.Edges {
+			if k, ok := constInt(e); ok && k == 0 {
+				init0 = true
+			}
+			if add, ok := e.(*ssa.BinOp); ok && add.Op == token.ADD && add.X == ssa.Value(cnt) {
+				if k, ok := constInt(add.Y); ok && k == 1 {
+					step1 = true
+				}
+			}
+		}
+		args := call.Common().Args
+		if init0 && step1 && len(args) == 3 && describeArg(c, fn, args[0]) == "p0.year" && describeArg(c, fn, args[1]) == "p0.month" && describeArg(c, fn, args[2]) == "p1" {
+			r.ok(rule, constructB, c.pos(step.Pos()), "count-based listing: GetWeeksOfMonth(own year, own month, start) weeks from the week of the 1st, stepping one week at a time (the count is decided by R15.6)")
+			return
+		}
+	}
+	var bad []string
+	n := 0
+	for _, sc := range []struct {
+		y, m, ny, nm int64
+	}{{2023, 5, 2023, 5}, {2023, 5, 2023, 6}, {2023, 12, 2023, 12}, {2023, 12, 2024, 1}, {2023, 1, 2023, 1}, {2023, 1, 2023, 2}} {
+		var leaf leafX
+		leaf = func(fr *evalFrame, v ssa.Value) (interface{}, bool) {
+			if x, ok := objLeaf(fr, v); ok {
+				return x, true
+			}
+			if rc, f, ok := getterField(c, v); ok {
+				if ofr, o := fr.origin(rc); ofr.parent == nil && o == ssa.Value(fn.Params[0]) {
+					switch f {
+					case "SolarMonth.year":
+						return sc.y, true
+					case "SolarMonth.month":
+						return sc.m, true
+					}
+				}
+				if o, ok := evalWith(fr, rc, leaf); ok {
+					if dt, isD := o.(absDate); isD {
+						switch f {
+						case "Solar.year":
+							return dt.y, true
+						case "Solar.month":
+							return dt.m, true
+						}
+					}
+				}
+			}
+			if call, ok := v.(*ssa.Call); ok && call.Common().StaticCallee() != nil && fname(call.Common().StaticCallee()) == "calendar.(*SolarWeek).GetFirstDay" {
+				if o, ok := evalWith(fr, call.Common().Args[0], leaf); ok && o == interface{}(absPtr{"stepped week", false}) {
+					return absDate{sc.ny, sc.nm, 3}, true
+				}
+			}
+			return nil, false
+		}
+		ev := &evaluator{inline: inlineLibrary, leaf: leaf}
+		fr := &evalFrame{fn: fn, phiFrom: map[*ssa.BasicBlock]*ssa.BasicBlock{}}
+		_, outcome := ev.runFrame(fr, step.Block(), hasPush)
+		n++
+		want := sc.y == sc.ny && sc.m == sc.nm
+		switch {
+		case len(outcome) > 5 && outcome[:5] == "stop:":
+			if !want {
+				bad = append(bad, fmt.Sprintf("month %d-%d, next week starts in %d-%d: the walk continues", sc.y, sc.m, sc.ny, sc.nm))
+			}
+		case outcome == "return":
+			if want {
+				bad = append(bad, fmt.Sprintf("month %d-%d, next week starts in %d-%d: the walk stops", sc.y, sc.m, sc.ny, sc.nm))
+			}
+		default:
+			bad = append(bad, "the loop could not be followed: "+outcome+" "+ev.fail)
+		}
+	}
+	r.check(len(bad) == 0 && n == 6, rule, constructB, c.pos(step.Pos()), fmt.Sprintf("%d scenarios followed from the step to the next push or the return; deviations: %v", n, headList(bad, 3)))
 }
